@@ -1186,6 +1186,14 @@ impl<'ast, 'p> Visit<'ast> for Ctx<'p> {
                 if let Some(k) = kind {
                     let (rs, re) = br(m.receiver.span());
                     let (as_, ae) = br(arg.span());
+                    // a receiver that is a str place (`s[a..b]`, rewritten by R22 into `*vx_str_slice(..)`) is auto-referenced by the
+                    // method call; the helper takes `&str`, so the reference is written out
+                    let mut rcv: &syn::Expr = &m.receiver;
+                    while let syn::Expr::Paren(p) = rcv {
+                        rcv = &p.expr;
+                    }
+                    let amp = if let syn::Expr::Index(ix) = rcv { matches!(&*ix.index, syn::Expr::Range(_)) } else { false };
+                    let amp = if amp { "&" } else { "" };
                     if k == "chars" {
                         // the array literal is passed element by element (no unsizing coercion in the verifier)
                         let n = if let syn::Expr::Array(a) = arg { a.elems.len() } else { 0 };
@@ -1194,7 +1202,7 @@ impl<'ast, 'p> Visit<'ast> for Ctx<'p> {
                             s,
                             e,
                             vec![
-                                Part::Lit(format!("vx_{}_chars{}(", name, n)),
+                                Part::Lit(format!("vx_{}_chars{}({}", name, n, amp)),
                                 Part::Src(rs, re),
                                 Part::Lit(format!(", {})", inner)),
                             ],
@@ -1204,7 +1212,7 @@ impl<'ast, 'p> Visit<'ast> for Ctx<'p> {
                         s,
                         e,
                         vec![
-                            Part::Lit(format!("vx_{}_{}(", name, k)),
+                            Part::Lit(format!("vx_{}_{}({}", name, k, amp)),
                             Part::Src(rs, re),
                             Part::Lit(", ".into()),
                             Part::Src(as_, ae),
